@@ -354,3 +354,8 @@ def c20_socks_eof_before_request(rp):       # found in round 3; fix proposed as 
 
 def c13_symlink_target_lstat_outside(rp):    # fixed 534f324
     return rp.get('kind') == 'e2e_chroot' and rp.get('op') == 'symlink-old' and rp.get('event') in ('os.lstat', 'os.readlink', 'os.stat')
+
+
+def c06_success_deferred_request(rp):       # fixed 2acdd0f
+    # the scripted session 'D': answers during a re-key that holds the client's next request back
+    return rp.get('kind') == 'success_without_request' and rp.get('script') == 'D'
